@@ -19,7 +19,7 @@ E2 = [("a", 10, None), (None, 30, 2.0)]
 def tier_cfg(tier):
     if tier == "quick":
         return {"depth": 2, "kd": 2, "ke": 1, "slice_depth": 0}
-    return {"depth": 2, "kd": 2, "ke": 2, "slice_depth": 3}
+    return {"depth": 2, "kd": 2, "ke": 2, "slice_depth": 2}
 
 
 def column_slice(cols, roles, depth, hist):
